@@ -502,6 +502,7 @@ def eof_sweep_cases():
 
 class CliEngine(object):
     prop = PROP
+    isolate_runs = True  # every run in a forked child of the worker (no state leaks from run to run)
 
     def __init__(self, seed=0, real_every=0, mode="random"):
         self.seed = seed
